@@ -1,0 +1,57 @@
+// SPDX-FileCopyrightText: 2026 The Pion community <https://pion.ly>
+// SPDX-License-Identifier: MIT
+
+//go:build verif && verif_jsepa && !js
+
+package webrtc
+
+import (
+	"errors"
+	"io"
+)
+
+// VerifJsepErrClass maps an error of CreateOffer, CreateAnswer,
+// SetLocalDescription, SetRemoteDescription or AddTransceiverFromKind to the
+// short class name used by the verification model (properties C06, C07, C09).
+// Unknown errors map to "other", so the comparison with the model fails
+// visibly instead of depending on message text.
+func VerifJsepErrClass(err error) string { //nolint:cyclop
+	switch {
+	case err == nil:
+		return "ok"
+	case errors.Is(err, errExcessiveRetries):
+		return "excessive-retries"
+	case errors.Is(err, errPeerConnRemoteDescriptionWithoutMidValue):
+		return "remote-without-mid"
+	case errors.Is(err, errPeerConnTranscieverMidNil):
+		return "mid-not-found"
+	case errors.Is(err, ErrSenderWithNoCodecs):
+		return "sender-no-codecs"
+	case errors.Is(err, ErrNoRemoteDescription):
+		return "no-remote-description"
+	case errors.Is(err, ErrIncorrectSignalingState):
+		return "incorrect-signaling-state"
+	case errors.Is(err, errSignalingStateProposedTransitionInvalid):
+		return "invalid-transition"
+	case errors.Is(err, ErrUnsupportedCodec):
+		return "unsupported-codec"
+	case errors.Is(err, ErrNoCodecsAvailable):
+		return "no-codecs"
+	case errors.Is(err, errPeerConnAddTransceiverFromKindSupport):
+		return "unsupported-direction"
+	case errors.Is(err, errRTPTransceiverCannotChangeMid):
+		return "cannot-change-mid"
+	case errors.Is(err, io.EOF):
+		return "sdp-parse"
+	default:
+		return "other"
+	}
+}
+
+// VerifGreaterMid returns the mid counter CreateOffer allocates from.
+func (pc *PeerConnection) VerifGreaterMid() int {
+	pc.mu.RLock()
+	defer pc.mu.RUnlock()
+
+	return pc.greaterMid
+}
